@@ -253,9 +253,17 @@ def robustness_checks():
             x = torch.arange(3, dtype=torch.float64) + 3 * self.k
             self.k += 1
             return x, (x + 0.5).reshape(-1, 1)
-    bg = BatchGenerator(Ranks(), 4)
-    for call in range(3):
-        b = bg.get_examples()
+    try:
+        bg = BatchGenerator(Ranks(), 4)
+    except Exception as e:
+        bg = None
+        bad.append(dict(script=dict(kind='draws with an (N,) and an (N, 1) coordinate'), violated=f'the batch generator cannot be built / used: {type(e).__name__}: {e}'))
+    for call in range(3 if bg is not None else 0):
+        try:
+            b = bg.get_examples()
+        except Exception as e:
+            bad.append(dict(script=dict(kind='draws with an (N,) and an (N, 1) coordinate'), violated=f'batch {call} raised {type(e).__name__}: {e}'))
+            break
         if tuple(b[0].shape) != (4,) or tuple(b[1].shape) != (4, 1) or (b[0] + 0.5).tolist() != b[1].reshape(-1).tolist():
             bad.append(dict(script=dict(kind='draws with an (N,) and an (N, 1) coordinate'), violated=f'batch {call}: shapes {tuple(b[0].shape)}, {tuple(b[1].shape)} '
                             '(expected (4,), (4, 1)) or rows not paired'))
